@@ -22,10 +22,15 @@ XTA_DIAG = XTA_OK.replace("i < 2", "i <\n nosuch")
 CONCRETE = {   # abstract call kind of Tracker.tla -> concrete model_run calls
     "ok": [{"entry": "part", "part": "S_DECLARATION", "text": "int v = 1;"}, {"entry": "xml_buffer", "text": XML_OK}, {"entry": "xta", "text": XTA_OK},
            {"entry": "xml_buffer", "text": XML_OK, "queries": ["A[] T.A", "E<> i == 1"], "query_builder": "tiga"},
-           {"entry": "part", "part": "S_EXPRESSION", "text": "i + 1", "scaffold": SC}, {"builder": "pretty", "entry": "xta", "text": XTA_OK}],
+           {"entry": "part", "part": "S_EXPRESSION", "text": "i + 1", "scaffold": SC}, {"builder": "pretty", "entry": "xta", "text": XTA_OK},
+           {"entry": "none", "queries": ["E<> true", "A[] 1 < 2"], "query_builder": "tiga"}, {"entry": "none", "queries": ["E<> 2 > 1"], "query_builder": "property"},   # a query as the very first thing a call does
+           {"entry": "part", "part": "S_DECLARATION", "text": "typedef scalar[2] sid; sid sv; scalar[3] anon; int perm[sid];"},                      # scalar sets get generated type labels
+           {"entry": "xta", "text": "typedef scalar[3] pid_t;\n" + XTA_OK.replace("process P()", "process P(pid_t id)")},
+           {"entry": "xml_buffer", "text": XML_OK.replace("int i; clock x;", "int i; clock x; scalar[2] tok; typedef scalar[4] S4;")}],
     "err": [{"entry": "part", "part": "S_DECLARATION", "text": "int v = ;"}, {"entry": "xml_buffer", "text": XML_DIAG}, {"entry": "xta", "text": XTA_DIAG},
             {"entry": "part", "part": "S_GUARD", "text": "i < ) 2", "scaffold": SC}, {"entry": "xml_buffer", "text": XML_OK, "queries": ["A[] (T.A", "E<> nosuch"], "query_builder": "tiga"},
-            {"entry": "part", "part": "S_SYSTEM", "text": "system Nosuch;"}],
+            {"entry": "part", "part": "S_SYSTEM", "text": "system Nosuch;"}, {"entry": "none", "queries": ["E<> nosuch", "A[] ("], "query_builder": "tiga"},
+            {"entry": "part", "part": "S_DECLARATION", "text": "scalar[2] a1; scalar[2] b1; int z = a1 == b1;"}],
     "nlerr": [{"entry": "part", "part": "S_DECLARATION", "text": "int v;\n\nint = 2;"}, {"entry": "part", "part": "S_DECLARATION", "text": "int v;\r\nint w\r\n = ;"},
               {"entry": "part", "part": "S_DECLARATION", "text": "int v; // c\n/* a\n b */ int 5;"}, {"entry": "part", "part": "S_ASSIGN", "text": "i = 1,\n nosuch = 2", "scaffold": SC}],
     "empty": [{"entry": "part", "part": "S_EXPRESSION", "text": "", "builtins": False}, {"entry": "part", "part": "S_DECLARATION", "text": "", "builtins": False},
